@@ -41,6 +41,7 @@ DriftOf(exp, step) ==
   \cup (IF exp.ok /\ step.res.ok /\ exp.xfers # step.xfers THEN {"xfers"} ELSE {})
   \cup (IF ((exp.ok /\ step.res.ok) \/ exp.err = "hook") /\ exp.hooks # step.hooks THEN {"hooks"} ELSE {})
   \cup (IF exp.ok /\ step.res.ok /\ EventsOf(step.pre, step.act, exp) # step.evm THEN {"events"} ELSE {})
+  \cup (IF step.extra.modinv # ModuleInvariantsBroken(step.post) THEN {"modinv"} ELSE {})
 
 InitDrift(rec) ==
   LET s0 == [InitState(rec.act.bal0, rec.act.params, FALSE) EXCEPT !.nl = IF "listeners" \in DOMAIN rec.act THEN rec.act.listeners ELSE 0] IN
